@@ -24,7 +24,7 @@ SPEC = dict(
     required=["sibling_sets", "loads_compared", "show_compared", "dry_update_compared", "bool_spelling:yes",
               "bool_spelling:on", "bool_spelling:1", "bool_spelling:TRUE", "bool_spelling:no", "glob_entries",
               "legacy_section_loads", "explicit_self_entries_with_extra_pattern", "ini_layout:inline", "ini_layout:mixed",
-              "configs_without_file_patterns_section", "ini_mixed_quoting", "ini_quoted_booleans", "toml_string_booleans", "toml_single_pattern_as_string", "configs_with_indented_keys"],
+              "configs_without_file_patterns_section", "ini_mixed_quoting", "ini_quoted_booleans", "toml_string_booleans", "toml_single_pattern_as_string", "configs_with_indented_keys", "ini_booleans_on_a_continuation_line", "ini_header_comment_with_brackets"],
     anchors=[("config", "_parse_cfg"), ("config", "_parse_toml"), ("config", "_parse_config"),
              ("config", "_parse_cfg_file_patterns"), ("config", "_iter_glob_expanded_file_patterns"),
              ("config", "_parse_raw_config")],
@@ -118,6 +118,7 @@ def gen_abstract(R, tdy):
     # no configured file at all: the (empty) file_patterns section may be left out entirely
     a["omit_empty_file_patterns_section"] = R.random() < 0.6
     a["indent_keys"] = R.random() < 0.2
+    a["header_comment"] = R.random() < 0.2      # a comment (with brackets in it) after the file_patterns header
     return a
 
 
@@ -143,7 +144,7 @@ def serialise(a, syntax, R):
                 else:
                     lines.append(f"{k} = {'true' if a[k] else 'false'}")
         if a["entries"] or a.get("self_entry") or not a.get("omit_empty_file_patterns_section"):
-            lines += ["", f"[{sect}.file_patterns]"]
+            lines += ["", f"[{sect}.file_patterns]" + ("  # files to rewrite [see docs]" if a.get("header_comment") else "")]
         if a.get("self_entry"):
             own = ['current_version = "{version}"'] + (["released as {version} !"] if a["self_entry"] == "with-extra" else [])
             lines.append(f"{q(fname)} = [" + ", ".join(q(p) for p in own) + "]")
@@ -184,10 +185,17 @@ def serialise(a, syntax, R):
                     # quotes are optional around every setup.cfg value, the booleans included
                     lines.append(f'{k} = "{sp}"')
                     spelled["quoted_boolean"] = 1
+                elif kind == "cfg-unquoted" and R.random() < 0.3:
+                    # the value on a continuation line (the layout the file patterns of the same file use)
+                    lines.append(f"{k} =")
+                    lines.append(f"    {sp}")
+                    spelled["continuation_boolean"] = 1
                 else:
                     lines.append(f"{k} = {sp}")
         if a["entries"] or a.get("self_entry") or not a.get("omit_empty_file_patterns_section"):
-            lines += ["", f"[{sect}:file_patterns]"]
+            lines += ["", f"[{sect}:file_patterns]" + ("  # files to rewrite [see docs]" if a.get("header_comment") else "")]
+            if a.get("header_comment"):
+                spelled["bracket_in_header_comment"] = 1
         if a.get("self_entry"):
             lines.append(f"{fname} =")
             lines.append("    current_version = " + ('"{version}"' if quoted else "{version}"))
@@ -299,6 +307,10 @@ def run_case(ctx, case):
                 ctx.count("toml_single_pattern_as_string")
             elif k == "indented_keys":
                 ctx.count("configs_with_indented_keys")
+            elif k == "continuation_boolean":
+                ctx.count("ini_booleans_on_a_continuation_line")
+            elif k == "bracket_in_header_comment":
+                ctx.count("ini_header_comment_with_brackets")
             else:
                 ctx.count("bool_spelling:" + sp)
     if any("*" in key for key, _f, _p in a["entries"]):
